@@ -26,13 +26,15 @@ def check(ctx, tier):
     getitem(ctx, tk)
     iteration(ctx, tk)
     concat_eq(ctx, tk)
+    column_join(ctx, tk)
+    field_coercion(ctx, tk)
     astype(ctx, tk)
     varlen(ctx, tk)
     fs = [f for q, f in ctx.program.funcs.items() if q.startswith("npdataclasses.") and f.name not in ("empty", "empty_element", "stack_with_ragged", "__str__")]
     W.report(ctx, tk, "C18.e", fs)
     tk.purity("C18.p", [ctx.func(q) for q in ['npdataclasses.NpDataClass.__getitem__', 'npdataclasses.NpDataClass.__len__', 'npdataclasses.NpDataClass.__iter__', 'npdataclasses.NpDataClass.__array_function__', 'npdataclasses.NpDataClass.astype', 'npdataclasses.VarLenArray.__array_function__', 'npdataclasses.npdataclass.FinalClass.__eq__']], "the operation does not write into its operands' buffers", content_only=True)
     from .. import hazards as _hz, scopes as _sc
-    _hz.generic(ctx, tk, "C18.z", _sc.scope(tk, "C18"))
+    _hz.generic(ctx, tk, "C18.z", _sc.scope(tk, "C18", depth=2))
     return {}
 
 
@@ -184,6 +186,51 @@ def concat_eq(ctx, tk):
         inside = any(ga.cfg.can_reach(r, [fn]) for fn in fors)
         ctx.decide("C18.c", g, "== answers True only after all fields were compared", True if (okt and not inside) else False,
                    "`return True` can be reached before every field was compared", node=r.ast, key="eq-true", engine="E1")
+
+
+def column_join(ctx, tk):
+    """the per-field join of a concatenation is np.concatenate along axis 0 (np.hstack joins 2-D fields along axis 1,
+    np.append without axis flattens them)"""
+    f = ctx.func(ND + "__array_function__")
+    fa = ctx.fa(f)
+    what = "each field of a concatenation is joined along the entry axis (np.concatenate, axis 0)"
+    n_found = 0
+    for n, c in find_calls(fa, lambda c: c.a[0].k == "attr" and c.a[0].a[1] == "append" and len(c.a[1]) == 1):
+        x = c.a[1][0]
+        nm = np_call(x, {"concatenate", "hstack", "vstack", "column_stack", "append", "stack", "dstack", "r_", "c_"})
+        if nm is None:
+            ctx.unknown("C18.c", f, what, "column built by %s" % (x,), node=c.node, key="join", engine="KB")
+            continue
+        n_found += 1
+        ax = dict(x.a[2]).get("axis", x.a[1][1] if len(x.a[1]) > 1 else None)
+        if nm == "concatenate":
+            ok = True if (ax is None or is_const(ax, 0)) else (False if ax.k == "const" or ax.k == "un" else None)
+        else:
+            ok = False
+        ctx.decide("C18.c", f, what, ok, "`%s`: a 2-D field is joined along another axis (or flattened), so the table comes back with the wrong number of entries" % (x,),
+                   node=c.node, key="join", engine="KB")
+
+
+def field_coercion(ctx, tk):
+    """the tuple of all fields is heterogeneous: handing it to a numpy function that builds ONE array coerces every
+    field to a common dtype (int64 ids next to a float column become float64)"""
+    what = "the fields of a table are never combined into one array (they keep their own dtypes)"
+    n_sites = 0
+    for q, f in sorted(ctx.program.funcs.items()):
+        if not q.startswith("npdataclasses."):
+            continue
+        fa = ctx.fa(f)
+        for n, c in find_calls(fa, lambda c: np_call(c, {"stack", "array", "asarray", "asanyarray", "vstack", "hstack", "column_stack", "concatenate", "dstack"}) and c.a[1]):
+            arg = c.a[1][0]
+            whole = any(a.k == "call" and (call_name(a) or "").endswith("shallow_tuple") for a in alts(arg)) or \
+                any(a.k == "call" and call_name(a) in ("list", "tuple") and a.a[1] and any(b.k == "call" and (call_name(b) or "").endswith("shallow_tuple") for b in alts(a.a[1][0])) for a in alts(arg))
+            if not whole:
+                continue
+            n_sites += 1
+            ctx.violated("C18.c", f, what, "`%s` builds one array from all fields: numpy promotes them to a common dtype, so an int64 column next to a float column "
+                         "loses exactness above 2**53 and comes back as float" % (c,), node=c.node, key="coercion", engine="KB")
+    if not n_sites:
+        ctx.holds("C18.c", ND + "__iter__", what, key="coercion", engine="KB")
 
 
 def astype(ctx, tk):
